@@ -81,6 +81,14 @@ func parseExtensions(e []AnyExtension) ([]config.ExtensionConfig, error) {
 				return nil, fmt.Errorf("field '%v' can't be casted properly", innerStructTyp.Name)
 			}
 
+			//the schema only checks the form of the oid, not the size of its arcs
+			if custom, ok := innerStruct.(CustomExtension); ok {
+				if _, err := cert.OidFromString(custom.OidStr); err != nil {
+					return nil, fmt.Errorf("custom extension number %d has an invalid oid '%v': %v",
+						i, custom.OidStr, err)
+				}
+			}
+
 			out = append(out, innerStruct)
 		}
 
